@@ -15,6 +15,20 @@ package main
 //
 // url.host / url.key lines send URL strings through net/url and through the model's parser.
 //
+// Generator audit (round 17): the value and shape pools were widened to what the quantifier ranges
+// over — init requests on look-alike hosts (a ticket's location may be a look-alike or another spelling
+// of a configured host), sub-domain labels other than "evil", degenerate locations ("", "https://",
+// "host:443", "//host", leading blank, double slash), credentials that are blank / contain blanks /
+// non-ASCII / long, zero configured pairs, one option value applied twice, one *http.Client handed over
+// twice, one transport under two clients, two callbacks, shuffled / duplicated / empty / case-variant
+// ignore lists, redirect statuses 301/302/303/308, header separators and scheme spellings, duplicated
+// and early existing discharges, degenerate headers, what the third party puts into "discharge"
+// (scheme prefix, blanks, two tokens, a foreign discharge, a non-macaroon, a malformed macaroon).
+// Model-independent oracles inside the observable (never produced by the model, hence a P-difference
+// when they appear): REUSE-DIFF (a second FetchDischargeTokens on the same client answers differently),
+// CALLER-CLIENT-MODIFIED (an option wrote into the caller's *http.Client), CHECKREDIRECT-LOST (redirects followed without the caller's CheckRedirect), CBURL-WRONG (the
+// callback got a URL the third party did not give as user_url).
+//
 // Lines whose URL strings are outside the modelled shapes (invalid UTF-8, '%' in the
 // authority zone) are emitted with the observable "unmodelled" and counted, not compared.
 
@@ -76,7 +90,7 @@ type cliResp struct {
 	poll   string
 	uiPoll string
 	uiUser string
-	status int
+	status int  // json kinds: status of the answer (0 = 200); redir: 301 302 303 307 308 (0 = 307)
 	junk   bool // fail as a non-JSON body instead of a transport error
 }
 
@@ -90,6 +104,7 @@ func (c cliResp) urls() []string {
 	return us
 }
 
+// alias = what the flow's third party writes into "discharge", at alias level (cliFlow.disSx)
 func (c cliResp) sx(alias string) string {
 	d := ""
 	if c.dis {
@@ -113,7 +128,9 @@ type cliFlow struct {
 	n      int
 	loc    string
 	ticket []byte
-	dis    string // real discharge token string
+	dis    string   // what the third party writes into "discharge" (real token strings)
+	disSx  string   // the same at alias level, as the op line carries it
+	adds   []string // aliases AddTokens appends for it (nil: it refuses the string)
 	script []cliResp
 	next   int
 	reqs   []string
@@ -131,6 +148,12 @@ type cliWorld struct {
 	jars     map[int]bool
 	stray    []string
 	userURLs int
+	cbURLs   []string
+	chk      map[int]bool // CheckRedirect functions called, by http.Client id
+	anyHop   bool
+	trs      map[int]*cliTransport
+	clients  map[int]*http.Client
+	tidOf    map[int]int // client id → the transport id it was created with
 }
 
 func cliCanonForms(s string) []string {
@@ -203,9 +226,17 @@ func (t *cliTransport) RoundTrip(r *http.Request) (*http.Response, error) {
 	w.via[t.id] = true
 	canon := r.URL.String()
 	var f *cliFlow
+	// which Do the request belongs to: the method of the request the library built (301/302/303 turn the
+	// init POST into a GET on the next hop)
+	root := r
+	for p, n := r.Response, 0; p != nil && p.Request != nil && n < 20; p, n = p.Request.Response, n+1 {
+		root = p.Request
+	}
 	kind := "P"
-	if r.Method == http.MethodPost {
+	if root.Method == http.MethodPost {
 		kind = "I"
+	}
+	if r.Method == http.MethodPost {
 		var jr struct {
 			Ticket []byte `json:"ticket"`
 		}
@@ -226,6 +257,9 @@ func (t *cliTransport) RoundTrip(r *http.Request) (*http.Response, error) {
 	hop := 0
 	for p := r.Response; p != nil && p.Request != nil && hop < 20; p = p.Request.Response {
 		hop++
+	}
+	if hop > 0 {
+		w.anyHop = true
 	}
 	rec := fmt.Sprintf("%s%d %s %s", kind, hop, hs(orig), cliAuthClass(r))
 	if f == nil {
@@ -255,7 +289,11 @@ func (t *cliTransport) RoundTrip(r *http.Request) (*http.Response, error) {
 	case "acc":
 		return mk(http.StatusAccepted, nil, ""), nil
 	case "redir":
-		return mk(http.StatusTemporaryRedirect, http.Header{"Location": []string{c.loc}}, ""), nil
+		st := c.status
+		if st == 0 {
+			st = http.StatusTemporaryRedirect
+		}
+		return mk(st, http.Header{"Location": []string{c.loc}}, ""), nil
 	}
 	jr := map[string]any{}
 	if c.errS != "" {
@@ -308,6 +346,18 @@ type cliOpt struct {
 	cred string
 	locs []string
 	ok   bool
+	// sameAs-1 = index (in the scenario's option list) of the option whose VALUE this entry re-uses: the same
+	// closure applied twice to one client (0 = a value of its own)
+	sameAs int
+}
+
+func (w *cliWorld) transport(tid int) *cliTransport {
+	if t, ok := w.trs[tid]; ok {
+		return t
+	}
+	t := &cliTransport{tid, w}
+	w.trs[tid] = t
+	return t
 }
 
 func (o cliOpt) sx() string {
@@ -339,13 +389,32 @@ func (o cliOpt) sx() string {
 func (o cliOpt) build(w *cliWorld) tp.ClientOption {
 	switch o.kind {
 	case "http":
-		h := &http.Client{Transport: &cliTransport{o.tid, w}, Jar: &cliJar{o.id, w}}
+		// one *http.Client per id (two options with one id hand over the SAME client twice), one RoundTripper
+		// per transport id (two clients may share it)
+		if h, ok := w.clients[o.id]; ok {
+			return tp.WithHTTP(h)
+		}
+		h := &http.Client{Jar: &cliJar{o.id, w}}
+		id := o.id
+		// the caller's redirect policy travels with the client (same limit as the default policy)
+		h.CheckRedirect = func(req *http.Request, via []*http.Request) error {
+			w.mu.Lock()
+			w.chk[id] = true
+			w.mu.Unlock()
+			if len(via) >= 10 {
+				return errors.New("stopped after 10 redirects")
+			}
+			return nil
+		}
 		if o.tid < 0 {
 			// an http.Client WITHOUT a transport of its own (say, only a timeout or a jar set): requests then go
 			// through http.DefaultTransport, which this scenario replaces by a recording one
-			h.Transport = nil
-			http.DefaultTransport = &cliTransport{-1, w}
+			http.DefaultTransport = w.transport(-1)
+		} else {
+			h.Transport = w.transport(o.tid)
 		}
+		w.clients[o.id] = h
+		w.tidOf[o.id] = o.tid
 		// the caller's *http.Client is shared: another discharge client was built on it before, with its
 		// own credentials for every host of the pool, options in the order auth -> http.  A client must
 		// never pick up credentials configured on another client (nor write into the caller's http.Client).
@@ -367,6 +436,7 @@ func (o cliOpt) build(w *cliWorld) tp.ClientOption {
 		return tp.WithUserURLCallback(func(ctx context.Context, u string) error {
 			w.mu.Lock()
 			w.userURLs++
+			w.cbURLs = append(w.cbURLs, u)
 			w.mu.Unlock()
 			if ok {
 				return nil
@@ -379,9 +449,13 @@ func (o cliOpt) build(w *cliWorld) tp.ClientOption {
 
 // ---------- URL variants ----------
 
-var cliHostPool = []string{"tp.example", "auth.fly.io", "api.tp.example", "localhost", "127.0.0.1", "[::1]", "TP.Example", "xn--tp-example.test"}
+var cliHostPool = []string{"tp.example", "auth.fly.io", "api.tp.example", "localhost", "127.0.0.1", "[::1]", "TP.Example", "xn--tp-example.test",
+	"www.tp.example", "t\u00e9st.example", "a"}
 
-const cliNVariants = 30
+const cliNVariants = 32
+
+// labels a look-alike puts in front of the trusted name (a comparison that forgives "www." must not pass)
+var cliSubLabels = []string{"evil", "evil", "www", "api", "m", "xn--80ak6aa92e", "WWW"}
 
 // cliVariant builds the k-th look-alike of trusted host t; tag makes the URL unique.
 // redirect: the URL is used as a Location (relative forms are outside the model).
@@ -404,7 +478,8 @@ func cliVariant(r *Rng, t string, k int, tag string, redirect bool) (string, str
 		if ip6 {
 			return "https://[::2]/" + tag, "ip6.other"
 		}
-		return "https://evil." + t + "/" + tag, "sub"
+		l := pick(r, cliSubLabels)
+		return "https://" + l + "." + t + "/" + tag, "sub." + l
 	case 6:
 		if i := strings.IndexByte(t, '.'); i >= 0 && !ip6 {
 			return "https://" + t[i+1:] + "/" + tag, "super"
@@ -484,11 +559,22 @@ func cliVariant(r *Rng, t string, k int, tag string, redirect bool) (string, str
 			return "https://" + t[:i] + "\u0430" + t[i+1:] + "/" + tag, "idn"
 		}
 		return "https://" + bare + "\u0430.test/" + tag, "idn"
-	default:
+	case 29:
 		if r.Chance(1, 3) {
 			return "https://" + strings.Replace(bare, ".", "%2e", 1) + "/" + tag, "pcthost"
 		}
 		return "https://" + evil + ":443@" + t + ":/" + tag, "userinfo.looks.like.port"
+	case 30:
+		// a dot that is one only after IDNA mapping (ideographic full stop): net/url maps nothing
+		return "https://" + bare + "\u3002" + evil + "/" + tag, "idn.dot"
+	default:
+		switch t {
+		case "127.0.0.1": // other spellings of the same address are other host strings
+			return "https://" + pick(r, []string{"127.1", "2130706433", "0x7f.0.0.1", "127.0.0.01", "127.0.0.1."}) + "/" + tag, "ip4.alt"
+		case "[::1]":
+			return "https://" + pick(r, []string{"[::0001]", "[0::1]", "[::ffff:127.0.0.1]"}) + "/" + tag, "ip6.alt"
+		}
+		return "https://" + t + "/../" + tag + "//x/./", "dotseg"
 	}
 }
 
@@ -498,6 +584,10 @@ type cliScenario struct {
 	opts     []cliOpt
 	hosts    []string // trusted host texts (of the configured pairs)
 	scheme   string
+	stripped bool // the header carries a scheme StripAuthorizationScheme removes
+	reuse    bool // call FetchDischargeTokens a second time on the same client
+	thorough bool
+	plain    bool // the fixed "202 then 307 to evil.<host>" scenarios keep their exact historical shape
 	header   string
 	kept     []string // aliases, in order
 	alias    map[string]string
@@ -513,7 +603,7 @@ func (sc *cliScenario) opLine(perm []int) string {
 		sb.WriteString(" " + sc.opts[i].sx())
 	}
 	sb.WriteString(" (other)) (hdr ")
-	if sc.scheme != "" {
+	if sc.stripped {
 		sb.WriteString("1")
 	} else {
 		sb.WriteString("0")
@@ -528,7 +618,7 @@ func (sc *cliScenario) opLine(perm []int) string {
 			if i > 0 {
 				sb.WriteString(" ")
 			}
-			sb.WriteString(c.sx(f.alias()))
+			sb.WriteString(c.sx(f.disSx))
 		}
 		sb.WriteString("))")
 	}
@@ -537,8 +627,10 @@ func (sc *cliScenario) opLine(perm []int) string {
 }
 
 func (sc *cliScenario) run(perm []int) string {
-	w := &cliWorld{byTicket: map[string]*cliFlow{}, byURL: map[string]*cliFlow{}, orig: map[string]string{}, via: map[int]bool{}, jars: map[int]bool{}}
+	w := &cliWorld{byTicket: map[string]*cliFlow{}, byURL: map[string]*cliFlow{}, orig: map[string]string{}, via: map[int]bool{}, jars: map[int]bool{},
+		chk: map[int]bool{}, trs: map[int]*cliTransport{}, clients: map[int]*http.Client{}, tidOf: map[int]int{}}
 	flows := make([]*cliFlow, len(sc.flows))
+	userURLs := map[string]bool{}
 	for i, f := range sc.flows {
 		cp := *f
 		cp.next, cp.reqs, cp.orig = 0, nil, map[string]string{}
@@ -549,11 +641,26 @@ func (sc *cliScenario) run(perm []int) string {
 			for _, u := range c.urls() {
 				w.register(&cp, u, true)
 			}
+			if c.uiUser != "" {
+				userURLs[c.uiUser] = true
+			}
+		}
+	}
+	// one value per option of the scenario; an entry marked sameAs re-uses the value of another entry
+	built := make([]tp.ClientOption, len(sc.opts))
+	for i, op := range sc.opts {
+		if op.sameAs == 0 {
+			built[i] = op.build(w)
+		}
+	}
+	for i, op := range sc.opts {
+		if op.sameAs != 0 {
+			built[i] = built[op.sameAs-1]
 		}
 	}
 	var opts []tp.ClientOption
 	for _, i := range perm {
-		opts = append(opts, sc.opts[i].build(w))
+		opts = append(opts, built[i])
 	}
 	opts = append(opts, cliOpt{kind: "other"}.build(w))
 	// the same option VALUES were applied to another client before (a shared base-options slice for per-user
@@ -569,10 +676,11 @@ func (sc *cliScenario) run(perm []int) string {
 		for _, host := range cliHostPool {
 			sibling = append(sibling, tp.WithBearerAuthentication("https://"+host, "SIBLING-CLIENT-SECRET"))
 		}
+		sibling = append(sibling, tp.WithAuthentication("", "SIBLING-CLIENT-SECRET"), tp.WithAuthentication("https://", "SIBLING-CLIENT-SECRET"))
 		_ = tp.NewClient(cliFP, sibling...)
 	}
-	return guard(func() string {
-		c := tp.NewClient(cliFP, opts...)
+	// what one FetchDischargeTokens call shows
+	observe := func(c *tp.Client) string {
 		ctx, cancel := context.WithTimeout(context.Background(), 10*time.Second)
 		defer cancel()
 		out, err := c.FetchDischargeTokens(ctx, sc.header)
@@ -601,18 +709,27 @@ func (sc *cliScenario) run(perm []int) string {
 		}
 		rest := append([]string(nil), toks[nk:]...)
 		sort.Strings(rest)
-		got := map[string]bool{}
+		got := map[string]int{}
 		for _, t := range rest {
-			got[t] = true
+			got[t]++
 		}
 		var parts []string
 		anyReq := false
 		for _, f := range flows {
-			if len(f.reqs) == 0 && !got[f.alias()] && cliIgnored(sc, perm, f.loc) {
+			// the flow delivered: everything AddTokens makes of its third party's "discharge" string is in the result
+			delivered := len(f.adds) > 0
+			need := map[string]int{}
+			for _, a := range f.adds {
+				need[a]++
+			}
+			for a, n := range need {
+				delivered = delivered && got[a] >= n
+			}
+			if len(f.reqs) == 0 && !delivered && cliIgnored(sc, perm, f.loc) {
 				continue // never started: the model lists only started flows
 			}
 			o := "failed"
-			if got[f.alias()] {
+			if delivered {
 				o = "dis"
 			}
 			if len(f.reqs) > 0 {
@@ -631,7 +748,45 @@ func (sc *cliScenario) run(perm []int) string {
 		} else {
 			parts = append(parts, "via:-", "client:-")
 		}
+		// model-independent oracles
+		if w.anyHop && cliIDs("h", w.chk) != cliIDs("h", w.jars) {
+			parts = append(parts, "CHECKREDIRECT-LOST:"+cliIDs("h", w.chk))
+		}
+		for _, u := range w.cbURLs {
+			if !userURLs[u] {
+				parts = append(parts, "CBURL-WRONG:"+hs(u))
+			}
+		}
 		return strings.Join(parts, " ")
+	}
+	return guard(func() string {
+		c := tp.NewClient(cliFP, opts...)
+		// model-independent: the caller's *http.Client values are the caller's — configuring a discharge client (this
+		// one, the decoys, the sibling) must not have written into them (checked before any request is made)
+		mod := map[int]bool{}
+		for id, h := range w.clients {
+			if tid := w.tidOf[id]; (tid < 0 && h.Transport != nil) || (tid >= 0 && h.Transport != http.RoundTripper(w.trs[tid])) {
+				mod[id] = true
+			}
+		}
+		if len(mod) > 0 {
+			return "CALLER-CLIENT-MODIFIED:" + cliIDs("h", mod)
+		}
+		first := observe(c)
+		if !sc.reuse {
+			return first
+		}
+		// the same client once more, same header, same third parties: a client keeps nothing from one call to the next
+		w.mu.Lock()
+		for _, f := range flows {
+			f.next, f.reqs = 0, nil
+		}
+		w.via, w.jars, w.chk, w.stray, w.cbURLs, w.anyHop = map[int]bool{}, map[int]bool{}, map[int]bool{}, nil, nil, false
+		w.mu.Unlock()
+		if second := observe(c); second != first {
+			return first + " REUSE-DIFF:" + strings.ReplaceAll(second, " ", "_")
+		}
+		return first
 	})
 }
 
@@ -692,8 +847,16 @@ func cliPerms(n int) [][]int {
 	return out
 }
 
-var cliLocForms = []string{"https://%s", "https://%s/", "https://%s:8443", "http://%s/base/", "%s", "https://user@%s", "HTTPS://%s", "https://%s/p?q=1", "https://%s:", "https://%s./"}
-var cliCreds = []string{"Bearer tokA", "FlyV1 fm2_abc", "secretB", "", "Bearer tokC"}
+// %s = the host text; the first three are the plain forms
+var cliLocForms = []string{"https://%s", "https://%s/", "https://%s:8443", "http://%s/base/", "%s", "https://user@%s", "HTTPS://%s", "https://%s/p?q=1", "https://%s:", "https://%s./",
+	// not absolute (the raw string is the key), or absolute without the host where one expects it
+	"//%s", "%s:443", " https://%s", "", "https://", "ftp://%s",
+	// the init path lands in another URL component, or after a doubled slash
+	"https://%s//", "https://%s?x=1", "https://%s#frag", "https://u:p@%s", "https://%s/?u=https://evil.org/", "https://%s:8443/base?next=https://evil.org"}
+var cliCreds = []string{"Bearer tokA", "FlyV1 fm2_abc", "secretB", "", "Bearer tokC",
+	" ", "Bearer ", "tok with  blanks ", "Bearer t\u00f6k-\u00fc", "L" + strings.Repeat("o", 300) + "ng"}
+
+func cliHostOfLocForm(form, h string) string { return strings.ReplaceAll(form, "%s", h) }
 
 type cliTicketSpec struct {
 	loc    string
@@ -701,14 +864,59 @@ type cliTicketSpec struct {
 	preDis bool // already discharged in the caller's header
 }
 
-// build the caller's header: permission tokens with third-party caveats, existing discharges,
-// an extraneous discharge, a foreign permission token, a non-macaroon token
+// what the third party of a flow writes into "discharge"
+var cliDisForms = []string{"scheme", "bearer", "blanks", "twice", "wrong", "junk", "malformed", "mixed"}
+
+func (sc *cliScenario) setDischargeForm(o *Out, f *cliFlow, own, form string, wrong func() string) {
+	a := f.alias()
+	sc.alias[own] = a
+	o.count("tp-discharge." + form)
+	switch form {
+	case "scheme":
+		f.dis, f.disSx, f.adds = "FlyV1 "+own, "FlyV1 "+a, []string{a}
+	case "bearer":
+		f.dis, f.disSx, f.adds = "Bearer "+own, "Bearer "+a, []string{a}
+	case "blanks":
+		f.dis, f.disSx, f.adds = "  "+own+" ", "  "+a+" ", []string{a}
+	case "twice":
+		f.dis, f.disSx, f.adds = own+", "+own, a+", "+a, []string{a, a}
+	case "wrong": // a well-formed discharge of a ticket nobody asked about: nothing checks it
+		wa := fmt.Sprintf("w%d", f.n)
+		ws := wrong()
+		sc.alias[ws] = wa
+		f.dis, f.disSx, f.adds = ws, wa, []string{wa}
+	case "junk": // not a macaroon at all: AddTokens takes it as an opaque token
+		j := fmt.Sprintf("opaque-from-tp-%d", f.n)
+		ja := fmt.Sprintf("j%d", f.n)
+		sc.alias[j] = ja
+		f.dis, f.disSx, f.adds = j, ja, []string{ja}
+	case "malformed": // macaroon label, undecodable body: AddTokens refuses, nothing is appended
+		f.dis, f.disSx, f.adds = "fm2_!!!not-base64", "!bad", nil
+	case "mixed": // one good and one malformed token: AddTokens refuses the whole string
+		f.dis, f.disSx, f.adds = own+",fm2_!!!not-base64", a+",!bad", nil
+	default:
+		f.dis, f.disSx, f.adds = own, a, []string{a}
+	}
+}
+
+// build the caller's header: permission tokens with third-party caveats, existing discharges (after their
+// token, after later tokens, BEFORE their token, twice), an extraneous discharge, a foreign permission token,
+// a non-macaroon token; scheme spelling and separators vary
 func (sc *cliScenario) buildHeader(r *Rng, o *Out, specs [][]cliTicketSpec, extras bool) {
 	sc.alias = map[string]string{}
 	var toks []string
 	key := macaroon.NewSigningKey()
 	n := 0
 	var late []string
+	wrong := func() string {
+		m, _ := macaroon.New([]byte("w"), cliFP, key)
+		ka := macaroon.NewEncryptionKey()
+		m.Add3P(ka, "https://wrong.example")
+		cs := m.UnsafeCaveats.Caveats
+		_, dm, _ := macaroon.DischargeTicket(ka, "https://wrong.example", cs[len(cs)-1].(*macaroon.Caveat3P).Ticket)
+		ds, _ := dm.String()
+		return ds
+	}
 	for pi, ts := range specs {
 		m, err := macaroon.New([]byte{byte('a' + pi)}, cliFP, key)
 		if err != nil {
@@ -726,14 +934,16 @@ func (sc *cliScenario) buildHeader(r *Rng, o *Out, specs [][]cliTicketSpec, extr
 			cs := m.UnsafeCaveats.Caveats
 			ps = append(ps, pend{s, cs[len(cs)-1].(*macaroon.Caveat3P).Ticket})
 		}
+		if len(ts) == 0 {
+			o.count("hdr.token-without-third-party")
+		}
 		tok, err := m.String()
 		if err != nil {
 			panic(err)
 		}
 		a := fmt.Sprintf("p%d", pi)
 		sc.alias[tok] = a
-		toks = append(toks, tok)
-		sc.kept = append(sc.kept, a)
+		group := []string{tok} // this token and the existing discharges placed around it
 		for _, p := range ps {
 			_, dm, err := macaroon.DischargeTicket(p.spec.ka, p.spec.loc, p.ticket)
 			if err != nil {
@@ -747,24 +957,33 @@ func (sc *cliScenario) buildHeader(r *Rng, o *Out, specs [][]cliTicketSpec, extr
 				a := fmt.Sprintf("e%d", len(sc.alias))
 				sc.alias[ds] = a
 				o.count("hdr.existing-discharge")
-				if r.Bool() {
-					toks = append(toks, ds)
-					sc.kept = append(sc.kept, a)
-				} else {
+				switch r.Intn(6) {
+				case 0, 1:
+					group = append(group, ds)
+				case 2, 3:
 					late = append(late, ds) // discharge placed after later permission tokens
+					o.count("hdr.existing-discharge.late")
+				case 4:
+					group = append([]string{ds}, group...) // ... before its own permission token
+					o.count("hdr.existing-discharge.early")
+				default:
+					group = append(group, ds, ds) // ... twice
+					o.count("hdr.existing-discharge.twice")
 				}
 				continue
 			}
-			f := &cliFlow{n: n, loc: p.spec.loc, ticket: p.ticket, dis: ds}
-			sc.alias[ds] = f.alias()
+			f := &cliFlow{n: n, loc: p.spec.loc, ticket: p.ticket}
+			form := "plain"
+			if r.Chance(1, 4) {
+				form = pick(r, cliDisForms)
+			}
+			sc.setDischargeForm(o, f, ds, form, wrong)
 			sc.flows = append(sc.flows, f)
 			n++
 		}
+		toks = append(toks, group...)
 	}
-	for _, ds := range late {
-		toks = append(toks, ds)
-		sc.kept = append(sc.kept, sc.alias[ds])
-	}
+	toks = append(toks, late...)
 	if extras {
 		// discharge of a ticket no permission token carries: dropped by the default filter
 		m, _ := macaroon.New([]byte("z"), cliFP, key)
@@ -781,24 +1000,40 @@ func (sc *cliScenario) buildHeader(r *Rng, o *Out, specs [][]cliTicketSpec, extr
 		sc.alias[fs] = "x1"
 		// non-macaroon token: kept
 		sc.alias["opaque-token"] = "n0"
-		pos := r.Intn(len(toks) + 1)
-		ins := []string{ds, fs, "opaque-token"}
-		toks = append(toks[:pos:pos], append(ins, toks[pos:]...)...)
-		// kept list: the non-macaroon token sits where it was inserted
-		var kept []string
-		for _, t := range toks {
-			a := sc.alias[t]
-			if a == "x0" || a == "x1" {
-				continue
-			}
-			kept = append(kept, a)
+		for _, in := range []string{ds, fs, "opaque-token"} {
+			pos := r.Intn(len(toks) + 1)
+			toks = append(toks[:pos:pos], append([]string{in}, toks[pos:]...)...)
 		}
-		sc.kept = kept
 		o.count("hdr.extras")
 	}
-	sc.scheme = pick(r, []string{"FlyV1 ", "FlyV1 ", "Bearer ", "bearer ", "flyv1 ", ""})
-	o.count("hdr.scheme." + strings.TrimSpace(sc.scheme+"-"))
-	sc.header = sc.scheme + strings.Join(toks, ",")
+	// kept list: everything but what the default filter drops, in header order
+	for _, t := range toks {
+		if a := sc.alias[t]; a != "x0" && a != "x1" {
+			sc.kept = append(sc.kept, a)
+		}
+	}
+	sc.scheme = pick(r, []string{"FlyV1 ", "FlyV1 ", "Bearer ", "bearer ", "flyv1 ", "", "", "FLYV1 ", "BEARER ", "Bearer FlyV1 ", "  FlyV1   "})
+	o.count("hdr.scheme." + strings.ReplaceAll(strings.TrimSpace(sc.scheme), " ", "+") + "-")
+	sep := pick(r, []string{",", ",", ",", ", ", " , ", ",  "})
+	o.count("hdr.sep." + strings.ReplaceAll(sep, " ", "_"))
+	sc.header = sc.scheme + strings.Join(toks, sep)
+	if r.Chance(1, 8) {
+		sc.header += "  "
+		o.count("hdr.trailing-blanks")
+	}
+	sc.stripped = sc.scheme != ""
+	if len(toks) == 0 {
+		// no token at all: the header is "", or a lone scheme word (which is then a token, not a scheme)
+		sc.header = pick(r, []string{"", "FlyV1 ", "FlyV1", "Bearer"})
+		sc.stripped = false
+		w := strings.TrimSpace(sc.header)
+		sc.alias[w] = "n1"
+		sc.kept = []string{"n1"}
+		if w == "" {
+			sc.kept = []string{""}
+		}
+		o.count("hdr.degenerate")
+	}
 }
 
 // script for one flow
@@ -818,23 +1053,42 @@ func (sc *cliScenario) genScript(r *Rng, o *Out, f *cliFlow, mode string) {
 		return u
 	}
 	final := func() cliResp {
-		return cliResp{kind: "json", dis: true, status: pick(r, []int{200, 200, 201, 400})}
+		st := pick(r, []int{200, 200, 201, 400, 500, 204})
+		o.count(fmt.Sprintf("final.status.%d", st))
+		return cliResp{kind: "json", dis: true, status: st}
 	}
 	accs := func(n int) []cliResp {
+		if sc.thorough && r.Chance(1, 5) {
+			n += 3 + r.Intn(4)
+		}
+		o.count(fmt.Sprintf("poll.accepted-in-a-row.%d", n))
 		var out []cliResp
 		for i := 0; i < n; i++ {
 			out = append(out, cliResp{kind: "acc"})
 		}
 		return out
 	}
+	// every redirect status net/http follows; 301/302/303 turn the init POST into a GET
+	redir := func(loc string) cliResp {
+		st := pick(r, []int{307, 307, 307, 308, 301, 302, 303})
+		if sc.plain {
+			st = 307
+		}
+		o.count(fmt.Sprintf("redir.status.%d", st))
+		return cliResp{kind: "redir", loc: loc, status: st}
+	}
 	o.count("flow." + mode)
 	switch mode {
 	case "immediate":
 		f.script = []cliResp{final()}
+		if r.Chance(1, 4) {
+			f.script[0].status = 202 // the init answer is decoded whatever its status
+			o.count("init.json-with-202")
+		}
 	case "probe": // redirect chain over look-alikes on the init request
 		n := 1 + r.Intn(8)
 		for i := 0; i < n; i++ {
-			f.script = append(f.script, cliResp{kind: "redir", loc: variant(true)})
+			f.script = append(f.script, redir(variant(true)))
 		}
 		f.script = append(f.script, final())
 	case "poll":
@@ -845,11 +1099,11 @@ func (sc *cliScenario) genScript(r *Rng, o *Out, f *cliFlow, mode string) {
 		f.script = []cliResp{{kind: "json", poll: variant(false)}}
 		f.script = append(f.script, accs(r.Intn(3))...)
 		for i, n := 0, 1+r.Intn(3); i < n; i++ {
-			f.script = append(f.script, cliResp{kind: "redir", loc: variant(true)})
+			f.script = append(f.script, redir(variant(true)))
 		}
 		if r.Bool() {
 			f.script = append(f.script, accs(1)...)
-			f.script = append(f.script, cliResp{kind: "redir", loc: variant(true)})
+			f.script = append(f.script, redir(variant(true)))
 		}
 		f.script = append(f.script, final())
 	case "ui":
@@ -857,7 +1111,14 @@ func (sc *cliScenario) genScript(r *Rng, o *Out, f *cliFlow, mode string) {
 		f.script = append(f.script, accs(r.Intn(2))...)
 		f.script = append(f.script, final())
 	case "uibad":
-		f.script = []cliResp{{kind: "jsonui", uiPoll: pick(r, []string{"", variant(false)}), uiUser: ""}, final()}
+		switch r.Intn(3) {
+		case 0:
+			f.script = []cliResp{{kind: "jsonui"}, final()}
+		case 1:
+			f.script = []cliResp{{kind: "jsonui", uiPoll: variant(false)}, final()}
+		default:
+			f.script = []cliResp{{kind: "jsonui", uiUser: variant(false)}, final()} // a user URL and nothing to poll
+		}
 	case "both": // discharge wins over poll_url and user_interactive
 		f.script = []cliResp{{kind: "jsonui", dis: true, poll: variant(false), uiPoll: variant(false), uiUser: variant(false)}}
 	case "pollwins": // poll_url wins over user_interactive
@@ -881,7 +1142,7 @@ func (sc *cliScenario) genScript(r *Rng, o *Out, f *cliFlow, mode string) {
 	case "loop": // more redirects than net/http follows
 		u := variant(true)
 		for i := 0; i < 12; i++ {
-			f.script = append(f.script, cliResp{kind: "redir", loc: u})
+			f.script = append(f.script, redir(u))
 		}
 		f.script = append(f.script, final())
 	case "leak.sub", "leak.port", "leak.other", "leak.first": // 202 then 307 away from a trusted poll host
@@ -890,7 +1151,11 @@ func (sc *cliScenario) genScript(r *Rng, o *Out, f *cliFlow, mode string) {
 		var target string
 		switch mode {
 		case "leak.sub", "leak.first":
-			target = "https://evil." + strings.Trim(t, "[]") + "/" + tag()
+			l := pick(r, cliSubLabels)
+			if sc.plain {
+				l = "evil"
+			}
+			target = "https://" + l + "." + strings.Trim(t, "[]") + "/" + tag()
 		case "leak.port":
 			target = "https://" + t + ":8443/" + tag()
 		default:
@@ -900,20 +1165,26 @@ func (sc *cliScenario) genScript(r *Rng, o *Out, f *cliFlow, mode string) {
 		if mode != "leak.first" {
 			f.script = append(f.script, accs(1+r.Intn(2))...)
 		}
-		f.script = append(f.script, cliResp{kind: "redir", loc: target}, final())
+		f.script = append(f.script, redir(target), final())
 	}
 }
 
-var cliModes = []string{"immediate", "probe", "probe", "probe", "poll", "poll", "pollredir", "pollredir", "ui", "ui", "uibad", "both", "pollwins",
+var cliModes = []string{"immediate", "probe", "probe", "probe", "poll", "poll", "pollredir", "pollredir", "ui", "ui", "ui", "uibad", "both", "pollwins",
 	"error", "pollerror", "pollempty", "fail", "pollfail", "exhausted", "init202", "empty", "loop", "leak.sub", "leak.port", "leak.other", "leak.first"}
 
-func cliHostOfLocForm(form, h string) string { return fmt.Sprintf(form, h) }
-
-func genCliScenario(r *Rng, o *Out, idx int) *cliScenario {
-	sc := &cliScenario{}
+func genCliScenario(r *Rng, o *Out, idx int, thorough bool) *cliScenario {
 	fixedLeak := idx < 4 // the first scenarios are the fixed "202 then 307" cases
+	sc := &cliScenario{thorough: thorough, plain: fixedLeak}
+	maxOpts := 6
 	// configured pairs
 	np := 1 + r.Intn(3)
+	if thorough && r.Chance(1, 10) {
+		np = 4 + r.Intn(2)
+		maxOpts = 7
+	}
+	if r.Chance(1, 14) {
+		np = 0 // no credential configured at all: nothing may ever be attached
+	}
 	if fixedLeak {
 		np = 1
 	}
@@ -926,6 +1197,7 @@ func genCliScenario(r *Rng, o *Out, idx int) *cliScenario {
 		}
 		if i > 0 && r.Chance(1, 4) {
 			h = pairs[0].host // same host configured twice: last one wins
+			o.count("cfg.pair.same-host-again")
 		}
 		form := pick(r, cliLocForms)
 		if r.Chance(1, 2) {
@@ -934,6 +1206,10 @@ func genCliScenario(r *Rng, o *Out, idx int) *cliScenario {
 		if fixedLeak {
 			form = "https://%s"
 		}
+		if !strings.Contains(form, "%s") {
+			o.count("cfg.loc.hostless")
+		}
+		o.count("cfg.locform." + form)
 		loc := cliHostOfLocForm(form, h)
 		pairs = append(pairs, pair{loc, h})
 		cred := pick(r, cliCreds)
@@ -943,16 +1219,37 @@ func genCliScenario(r *Rng, o *Out, idx int) *cliScenario {
 		kind := "auth"
 		if r.Chance(1, 3) && cred != "" {
 			kind, cred = "bearer", fmt.Sprintf("b%d", i)
+			if r.Chance(1, 8) {
+				cred = "" // WithBearerAuthentication(loc, ""): the credential is "Bearer "
+				o.count("cfg.cred.bearer-empty-token")
+			}
 		}
 		sc.opts = append(sc.opts, cliOpt{kind: kind, loc: loc, cred: cred})
 		sc.hosts = append(sc.hosts, h)
 		o.count("cfg.cred." + map[bool]string{true: "empty", false: "nonempty"}[cred == "" && kind == "auth"])
+		if strings.TrimSpace(cred) == "" && cred != "" {
+			o.count("cfg.cred.blank")
+		}
+	}
+	if np == 0 {
+		sc.hosts = []string{pick(r, cliHostPool)} // look-alikes still need a name to imitate
 	}
 	o.count(fmt.Sprintf("cfg.pairs.%d", np))
+	// the same option VALUE once more in the list (a shared base slice appended twice)
+	if np > 0 && len(sc.opts) < 4 && r.Chance(1, 6) && !fixedLeak {
+		j := r.Intn(np)
+		d := sc.opts[j]
+		d.sameAs = j + 1
+		sc.opts = append(sc.opts, d)
+		o.count("cfg.auth.same-value-twice")
+	}
 	// http clients
 	nh := 1
 	if len(sc.opts) <= 3 && r.Chance(1, 2) {
 		nh = 2
+		if thorough && r.Chance(1, 6) {
+			nh = 3
+		}
 	}
 	for i := 0; i < nh; i++ {
 		tid := 10 + r.Intn(3)*10 + i
@@ -960,7 +1257,18 @@ func genCliScenario(r *Rng, o *Out, idx int) *cliScenario {
 			tid = -1
 			o.count("cfg.http.noTransport")
 		}
-		sc.opts = append(sc.opts, cliOpt{kind: "http", id: i + 1, tid: tid})
+		op := cliOpt{kind: "http", id: i + 1, tid: tid}
+		if i > 0 && !fixedLeak {
+			switch r.Intn(6) {
+			case 0: // the very same *http.Client handed over a second time
+				op = sc.opts[len(sc.opts)-1]
+				o.count("cfg.http.same-client-twice")
+			case 1: // another client around the same RoundTripper
+				op.tid = sc.opts[len(sc.opts)-1].tid
+				o.count("cfg.http.shared-transport")
+			}
+		}
+		sc.opts = append(sc.opts, op)
 	}
 	o.count(fmt.Sprintf("cfg.http.%d", nh))
 	// tickets: locations mostly the configured ones
@@ -969,6 +1277,9 @@ func genCliScenario(r *Rng, o *Out, idx int) *cliScenario {
 	var locs []string
 	for _, p := range pairs {
 		locs = append(locs, p.loc)
+	}
+	if len(locs) == 0 {
+		locs = []string{"https://" + sc.hosts[0]}
 	}
 	withIgn := len(sc.opts) < 5 && r.Chance(1, 2) && !fixedLeak
 	if withIgn {
@@ -980,10 +1291,52 @@ func genCliScenario(r *Rng, o *Out, idx int) *cliScenario {
 		if r.Chance(1, 4) {
 			ign = append(ign, ignLoc+"/") // a different string: ignores nothing of ignLoc
 		}
+		if r.Chance(1, 5) {
+			ign = append(ign, ignLoc) // listed twice
+			o.count("cfg.ignored.duplicate")
+		}
+		if r.Chance(1, 5) {
+			ign = append(ign, "") // the empty location
+			o.count("cfg.ignored.empty-string")
+		}
+		if r.Chance(1, 8) {
+			ign = append(ign, locs...) // every configured third party
+			ign = append(ign, extraLoc)
+			o.count("cfg.ignored.all-configured")
+		}
+		other := cliOpt{kind: "ign", locs: []string{pick(r, append(locs, "https://never-seen.example"))}}
 		if r.Chance(1, 2) {
+			// another SPELLING of a ticket's location (letter case, trailing slash removed or added, default
+			// port): a different string, it ignores nothing
+			l := pick(r, locs)
+			v := pick(r, []string{strings.ToUpper(l), strings.ToUpper(l), strings.ToLower(l), strings.TrimSuffix(l, "/"), l + "/", l + ":443", strings.Replace(l, "https://", "HTTPS://", 1), " " + l, strings.TrimSuffix(l, "/") + "/.well-known/macfly/3p"})
+			if v != l {
+				o.count("cfg.ignored.other-spelling")
+			}
+			other.locs = append(other.locs, v)
+		}
+		if r.Chance(1, 6) {
+			other.locs = nil // WithIgnoredThirdParties()
+			o.count("cfg.ignored.empty-list")
+		}
+		// the asked-for location anywhere in its list
+		two := r.Chance(1, 2)
+		if !two {
+			ign = append(ign, other.locs...)
+		}
+		for i := len(ign) - 1; i > 0; i-- {
+			j := r.Intn(i + 1)
+			ign[i], ign[j] = ign[j], ign[i]
+		}
+		if ign[0] != ignLoc {
+			o.count("cfg.ignored.not-first-in-list")
+		}
+		if ign[len(ign)-1] != ignLoc {
+			o.count("cfg.ignored.not-last-in-list")
+		}
+		if two {
 			// two ignore options (say a shared default list and the caller's own): both lists apply,
 			// whichever comes first
-			other := cliOpt{kind: "ign", locs: []string{pick(r, append(locs, "https://never-seen.example"))}}
 			if r.Bool() {
 				sc.opts = append(sc.opts, cliOpt{kind: "ign", locs: ign}, other)
 			} else {
@@ -997,9 +1350,17 @@ func genCliScenario(r *Rng, o *Out, idx int) *cliScenario {
 	}
 	withCB := len(sc.opts) < 5 && r.Chance(2, 3) && !fixedLeak
 	if withCB {
-		sc.opts = append(sc.opts, cliOpt{kind: "cb", ok: r.Chance(4, 5)})
+		ok := r.Chance(4, 5)
+		sc.opts = append(sc.opts, cliOpt{kind: "cb", ok: ok})
 		sc.hasCB = true
 		o.count("cfg.callback")
+		if len(sc.opts) < 5 && r.Chance(1, 3) {
+			sc.opts = append(sc.opts, cliOpt{kind: "cb", ok: !ok}) // two callbacks: the later option counts
+			o.count("cfg.callback.two")
+		}
+	}
+	for len(sc.opts) > maxOpts { // (cannot happen with the guards above; keeps phase A bounded)
+		sc.opts = sc.opts[:len(sc.opts)-1]
 	}
 	o.count(fmt.Sprintf("cfg.opts.%d", len(sc.opts)))
 
@@ -1012,20 +1373,41 @@ func genCliScenario(r *Rng, o *Out, idx int) *cliScenario {
 		return kas[l]
 	}
 	nperm := 1 + r.Intn(2)
+	if thorough && r.Chance(1, 6) {
+		nperm = 3
+	}
 	var specs [][]cliTicketSpec
 	for p := 0; p < nperm; p++ {
 		var ts []cliTicketSpec
 		nt := 1 + r.Intn(2)
+		if thorough && r.Chance(1, 6) {
+			nt = 3
+		}
+		if r.Chance(1, 12) {
+			nt = 0 // a permission token without third-party caveat
+		}
 		if fixedLeak {
 			nt = 1
 		}
 		for i := 0; i < nt; i++ {
 			l := pick(r, locs)
-			if r.Chance(1, 6) && !fixedLeak {
-				l = extraLoc
+			src := "configured"
+			switch {
+			case fixedLeak:
+			case r.Chance(1, 6):
+				l, src = extraLoc, "unconfigured"
+			case r.Chance(1, 5):
+				// the INIT request on a look-alike of a configured host
+				var name string
+				l, name = cliVariant(r, pick(r, sc.hosts), r.Intn(cliNVariants), fmt.Sprintf("t%dx%d", p, i), false)
+				src = "lookalike"
+				o.count("ticket.lookalike." + name)
+			case r.Chance(1, 6):
+				// another spelling of a configured host's location: same host, other string
+				l, src = cliHostOfLocForm(pick(r, cliLocForms), pick(r, sc.hosts)), "other-form"
 			}
 			if ignLoc != "" && r.Chance(1, 3) {
-				l = ignLoc
+				l, src = ignLoc, "ignored"
 			}
 			dup := false
 			for _, t := range ts {
@@ -1034,6 +1416,7 @@ func genCliScenario(r *Rng, o *Out, idx int) *cliScenario {
 			if dup {
 				continue
 			}
+			o.count("ticket.loc." + src)
 			ts = append(ts, cliTicketSpec{loc: l, ka: kaFor(l), preDis: r.Chance(1, 6) && !fixedLeak})
 		}
 		specs = append(specs, ts)
@@ -1041,7 +1424,10 @@ func genCliScenario(r *Rng, o *Out, idx int) *cliScenario {
 	if fixedLeak {
 		specs = specs[:1]
 	}
-	sc.buildHeader(r, o, specs, r.Chance(1, 3))
+	if r.Chance(1, 40) && !fixedLeak {
+		specs = nil // a header without any token
+	}
+	sc.buildHeader(r, o, specs, r.Chance(1, 3) && len(specs) > 0)
 	for _, f := range sc.flows {
 		mode := pick(r, cliModes)
 		if fixedLeak {
@@ -1064,8 +1450,84 @@ func genCliScenario(r *Rng, o *Out, idx int) *cliScenario {
 			sc.anyUnmod = true
 		}
 	}
+	sc.reuse = r.Chance(1, 4)
 	o.count(fmt.Sprintf("tickets.%d", len(sc.flows)))
 	return sc
+}
+
+// hand-written scenarios run under every permutation in every seed: shapes the random pools reach only
+// now and then (each is one "unusual but legal" configuration)
+type cliFixed struct {
+	name    string
+	opts    []cliOpt
+	hosts   []string
+	tickets [][]string // per permission token: the locations of its third-party caveats
+	modes   []string   // per flow
+	reuse   bool
+}
+
+func cliFixedScenarios(r *Rng, o *Out, thorough bool) []*cliScenario {
+	au := func(loc, cred string) cliOpt { return cliOpt{kind: "auth", loc: loc, cred: cred} }
+	ht := func(id, tid int) cliOpt { return cliOpt{kind: "http", id: id, tid: tid} }
+	const T = "https://tp.example"
+	fixed := []cliFixed{
+		{name: "ignored-second-in-list-and-case-variant", hosts: []string{"tp.example"}, reuse: true,
+			opts:    []cliOpt{au(T, "Bearer tok0"), ht(1, 10), {kind: "ign", locs: []string{"HTTPS://TP.EXAMPLE", "https://ignored.example", ""}}},
+			tickets: [][]string{{T, "https://ignored.example"}}, modes: []string{"immediate", "immediate"}},
+		{name: "two-callbacks", hosts: []string{"tp.example"},
+			opts:    []cliOpt{au(T, "Bearer tok0"), ht(1, 10), {kind: "cb", ok: true}, {kind: "cb", ok: false}},
+			tickets: [][]string{{T}}, modes: []string{"ui"}},
+		{name: "init-on-lookalikes", hosts: []string{"tp.example"}, reuse: true,
+			opts:    []cliOpt{au(T, "Bearer tok0"), ht(1, -1)},
+			tickets: [][]string{{"https://www.tp.example", "https://tp.example.evil.org"}, {"https://tp.example@evil.org", "https://TP.example/", "https://tp.example:8443/x"}},
+			modes:   []string{"immediate", "poll", "immediate", "immediate", "probe"}},
+		{name: "blank-credentials", hosts: []string{"tp.example", "auth.fly.io"},
+			opts:    []cliOpt{au(T, " "), {kind: "bearer", loc: "https://auth.fly.io", cred: ""}, au("https://localhost", ""), ht(1, 10)},
+			tickets: [][]string{{T, "https://auth.fly.io", "https://localhost"}}, modes: []string{"immediate", "pollredir", "immediate"}},
+		{name: "hostless-locations", hosts: []string{"tp.example"},
+			opts:    []cliOpt{au("", "Bearer tokE"), au("//tp.example", "Bearer tokS"), au("tp.example:443", "Bearer tokP"), ht(1, 10)},
+			tickets: [][]string{{"", "//tp.example"}, {"tp.example:443", T, "https:///x"}}, modes: []string{"immediate", "immediate", "immediate", "poll", "immediate"}},
+		{name: "one-client-twice-one-transport-twice", hosts: []string{"tp.example"},
+			opts:    []cliOpt{au(T, "Bearer tok0"), ht(1, 10), ht(1, 10), ht(2, 10)},
+			tickets: [][]string{{T}}, modes: []string{"probe"}},
+		{name: "doubled-slash-location", hosts: []string{"tp.example"},
+			opts:    []cliOpt{au(T+"//", "Bearer tok0"), ht(1, 10)},
+			tickets: [][]string{{T + "//", T + "/"}}, modes: []string{"immediate", "immediate"}},
+		{name: "one-value-twice-around-another", hosts: []string{"tp.example"},
+			opts:    []cliOpt{au(T, "Bearer first"), au(T+":8443", "Bearer second"), {kind: "auth", loc: T, cred: "Bearer first", sameAs: 1}, ht(1, 10)},
+			tickets: [][]string{{T}}, modes: []string{"pollredir"}},
+	}
+	var out []*cliScenario
+	for _, fx := range fixed {
+		sc := &cliScenario{thorough: thorough, opts: fx.opts, hosts: fx.hosts, reuse: fx.reuse}
+		kas := map[string]macaroon.EncryptionKey{}
+		var specs [][]cliTicketSpec
+		for _, ls := range fx.tickets {
+			var ts []cliTicketSpec
+			for _, l := range ls {
+				if _, ok := kas[l]; !ok {
+					kas[l] = macaroon.NewEncryptionKey()
+				}
+				ts = append(ts, cliTicketSpec{loc: l, ka: kas[l]})
+			}
+			specs = append(specs, ts)
+		}
+		sc.buildHeader(r, o, specs, false)
+		for i, f := range sc.flows {
+			sc.genScript(r, o, f, fx.modes[i])
+			for _, c := range f.script {
+				for _, u := range c.urls() {
+					sc.anyUnmod = sc.anyUnmod || cliUnmodelled(u)
+				}
+			}
+		}
+		for _, op := range sc.opts {
+			sc.hasCB = sc.hasCB || op.kind == "cb"
+		}
+		o.count("fixed." + fx.name)
+		out = append(out, sc)
+	}
+	return out
 }
 
 // ---------- URL parsing lines ----------
@@ -1140,7 +1602,11 @@ func famClientURLs(r *Rng, o *Out, n int) {
 		"mailto:user@tp.example", "https:tp.example", "https:/tp.example", "https:///tp.example", "https:////tp.example", "//tp.example:80/x", "///tp.example", "tp.example:80", "tp.example:80/x",
 		"https://tp.example?", "https://tp.example??", "https://tp.example?#", "https://tp.example#?", "https://tp.example/?/@evil", "https://tp.example#/@evil", "https://tp.example?@evil", "https://tp.example/@evil",
 		"https://evil?@tp.example", "https://evil#@tp.example", "https://evil/@tp.example", "https://tp.example\u00e9/", "https://\u00e9@tp.example/", "https://tp.example/\u00e9", "https://tp.example:\u0661/",
-		"https://a%25b/", "https://[fe80::1%25en0]/", "https://a/b%", "\xff", "https://a\xff/", "https://tp.example./", "https://.tp.example/", "https://TP.EXAMPLE/", "https://a_b/", "https://a~!$&'()*+,;=/", "https://a<b>\"/", "https://a|b/", "https://a{b}/", "https://a^b/", "https://a`b/"}
+		"https://a%25b/", "https://[fe80::1%25en0]/", "https://a/b%", "\xff", "https://a\xff/", "https://tp.example./", "https://.tp.example/", "https://TP.EXAMPLE/", "https://a_b/", "https://a~!$&'()*+,;=/", "https://a<b>\"/", "https://a|b/", "https://a{b}/", "https://a^b/", "https://a`b/",
+		// round 17: the degenerate location shapes and address spellings of the widened pools
+		" https://a", "https://a ", "a:443", "localhost:8080", "127.0.0.1:80", "[::1]:80", "//a", "//a:1/x", "https://a//", "https://a//b", "https://a?x=1/.well-known/macfly/3p", "https://a#f/.well-known/macfly/3p",
+		"https://127.1/", "https://0x7f.0.0.1/", "https://2130706433/", "https://[::ffff:127.0.0.1]/", "https://[::0001]/", "https://tp.example\u3002evil.org/", "https://www.tp.example/", "https://WWW.tp.example/",
+		"ftp://a", "ftp://a:21/x", "file:///etc/passwd", "https://a/../b", "https://u:p@a", "https://u:p@a:8443/x?y#z", "https://t\u00e9st.example/", "https://T\u00c9ST.example/"}
 	for _, s := range fixed {
 		emit(s)
 	}
@@ -1164,9 +1630,9 @@ func famClient(r *Rng, o *Out, tier string) {
 	// NewRng(seed) starts at seed*gamma: the streams of neighbouring seeds are shifts of one
 	// another and re-synchronise; restart from a mixed state so that seeds are independent
 	r = &Rng{s: r.U64() ^ 0xC20C20C20C20C20}
-	nA, nB, nurl := 22, 260, 400
+	nA, nB, nurl := 22, 420, 400
 	if tier == "thorough" {
-		nA, nB, nurl = 200, 4000, 6000
+		nA, nB, nurl = 200, 5000, 6000
 	}
 	famClientURLs(r, o, nurl)
 	runOne := func(sc *cliScenario, p []int) {
@@ -1192,8 +1658,33 @@ func famClient(r *Rng, o *Out, tier string) {
 		o.stats["requests.basic-from-userinfo"] += strings.Count(res, " basic")
 		o.emit(op, res)
 	}
+	for _, sc := range cliFixedScenarios(r, o, tier == "thorough") {
+		for _, p := range cliPerms(len(sc.opts)) {
+			runOne(sc, p)
+		}
+	}
 	for i := 0; i < nA; i++ {
-		sc := genCliScenario(r, o, i)
+		// every permutation is spent on scenarios in which at least one flow starts (the others are in phase B)
+		var sc *cliScenario
+		for try := 0; ; try++ {
+			tmp := &Out{stats: map[string]int{}}
+			sc = genCliScenario(r, tmp, i, tier == "thorough")
+			starts := false
+			all := make([]int, len(sc.opts))
+			for k := range all {
+				all[k] = k
+			}
+			for _, f := range sc.flows {
+				starts = starts || !cliIgnored(sc, all, f.loc)
+			}
+			if starts || try >= 20 {
+				for k, v := range tmp.stats {
+					o.stats[k] += v
+				}
+				break
+			}
+			o.count("phaseA.regenerated-no-flow-starts")
+		}
 		perms := cliPerms(len(sc.opts))
 		o.count(fmt.Sprintf("perms.all.%d", len(perms)))
 		for _, p := range perms {
@@ -1201,7 +1692,7 @@ func famClient(r *Rng, o *Out, tier string) {
 		}
 	}
 	for i := 0; i < nB; i++ {
-		sc := genCliScenario(r, o, 1000+i)
+		sc := genCliScenario(r, o, 1000+i, tier == "thorough")
 		perms := cliPerms(len(sc.opts))
 		for j := 0; j < 3 && j < len(perms); j++ {
 			runOne(sc, perms[r.Intn(len(perms))])
